@@ -280,31 +280,13 @@ theorem getInterval_fst_nonneg (start d mx : Int) (rev : Bool) : 0 ≤ (getInter
   rw [getInterval_fst]
   split <;> omega
 
-theorem getInterval_fst_dvd (k start d mx : Int) (rev : Bool) (h1 : k ∣ start) (h2 : k ∣ d) :
-    k ∣ (getInterval start d mx rev).1 := by
-  rw [getInterval_fst]
-  have hs : k ∣ (if rev = true then start - d else start) := by
-    split
-    · exact Int.dvd_sub h1 h2
-    · exact h1
-  generalize (if rev = true then start - d else start) = s0 at hs ⊢
-  split
-  · exact Int.dvd_zero k
-  · exact hs
-
-/-- what a window of the search can return: `start + z` samples, where sample `round(start·rate) + z`
-of the recording is a genuine crossing (`start ≥ 0` is the clamped start of the window) -/
+/-- what a window of the search can return (repaired code): the time `k·m` of a sample `k` of the
+recording that is a genuine crossing -/
 def Cand (m : Nat) (xs : List Int) (t : Int) : Prop :=
-  ∃ s : Int, ∃ z : Nat, 0 ≤ s ∧ t = s + (z : Int) * (m : Int) ∧ Genuine xs ((roundHalfEven s m).toNat + z)
+  ∃ k : Nat, t = (k : Int) * (m : Int) ∧ Genuine xs k
 
-/-- the same with the window start on a sample position `k` (which divides `m`-tick times) -/
-def CandOn (k : Int) (m : Nat) (xs : List Int) (t : Int) : Prop :=
-  ∃ s : Int, ∃ z : Nat, 0 ≤ s ∧ k ∣ s ∧ t = s + (z : Int) * (m : Int) ∧ Genuine xs ((roundHalfEven s m).toNat + z)
-
-theorem iter_list (m : Nat) (hm : 0 < m) (xs : List Int) (dur start : Int) (within : Bool) (step : Int) (rev : Bool) :
-    ∃ o, iterZeroCrossings (listReader m xs) m dur start within step rev = .ok o ∧
-      (∀ t, o = some t → ∃ z : Nat, t = (getInterval start step dur rev).1 + (z : Int) * (m : Int) ∧
-          Genuine xs ((roundHalfEven (getInterval start step dur rev).1 m).toNat + z)) := by
+theorem iter_cand (m : Nat) (hm : 0 < m) (xs : List Int) (dur start : Int) (within : Bool) (step : Int) (rev : Bool) :
+    ∃ o, iterZeroCrossings (listReader m xs) m dur start within step rev = .ok o ∧ ∀ t, o = some t → Cand m xs t := by
   unfold iterZeroCrossings
   cases within with
   | false => exact ⟨none, rfl, by intro t ht; cases ht⟩
@@ -313,33 +295,16 @@ theorem iter_list (m : Nat) (hm : 0 < m) (xs : List Int) (dur start : Int) (with
     refine ⟨_, rfl, ?_⟩
     intro t ht
     unfold findNextZeroCrossing at ht
-    cases hn : nextIdx (slice xs (roundHalfEven (getInterval start step dur rev).1 m)
-        (roundHalfEven (getInterval start step dur rev).2 m)) rev with
+    have hq0 := C16.roundHalfEven_nonneg _ m hm (getInterval_fst_nonneg start step dur rev)
+    generalize roundHalfEven (getInterval start step dur rev).1 m = q at *
+    cases hn : nextIdx (slice xs q (roundHalfEven (getInterval start step dur rev).2 m)) rev with
     | none => rw [hn] at ht; simp at ht
     | some z =>
       rw [hn] at ht
       simp only [Option.map_some, Option.some.injEq] at ht
-      refine ⟨z, ht.symm, ?_⟩
-      have hg := crossing_genuine _ rev z hn
-      exact genuine_of_slice xs _ _
-        (C16.roundHalfEven_nonneg _ m hm (getInterval_fst_nonneg start step dur rev)) z hg
-
-theorem iter_cand (m : Nat) (hm : 0 < m) (xs : List Int) (dur start : Int) (within : Bool) (step : Int) (rev : Bool) :
-    ∃ o, iterZeroCrossings (listReader m xs) m dur start within step rev = .ok o ∧ ∀ t, o = some t → Cand m xs t := by
-  obtain ⟨o, h1, h2⟩ := iter_list m hm xs dur start within step rev
-  refine ⟨o, h1, ?_⟩
-  intro t ht
-  obtain ⟨z, hz, hg⟩ := h2 t ht
-  exact ⟨_, z, getInterval_fst_nonneg start step dur rev, hz, hg⟩
-
-theorem iter_candOn (k : Int) (m : Nat) (hm : 0 < m) (xs : List Int) (dur start : Int) (within : Bool) (step : Int) (rev : Bool)
-    (h1 : k ∣ start) (h2 : k ∣ step) :
-    ∃ o, iterZeroCrossings (listReader m xs) m dur start within step rev = .ok o ∧ ∀ t, o = some t → CandOn k m xs t := by
-  obtain ⟨o, e1, e2⟩ := iter_list m hm xs dur start within step rev
-  refine ⟨o, e1, ?_⟩
-  intro t ht
-  obtain ⟨z, hz, hg⟩ := e2 t ht
-  exact ⟨_, z, getInterval_fst_nonneg start step dur rev, getInterval_fst_dvd k start step dur rev h1 h2, hz, hg⟩
+      have hg := genuine_of_slice xs _ _ hq0 z (crossing_genuine _ rev z hn)
+      refine ⟨q.toNat + z, ?_, hg⟩
+      rw [← ht, Int.natCast_add, Int.toNat_of_nonneg hq0, Int.add_mul]
 
 /-- one round on a plain sample list never raises, and both candidates are crossings -/
 theorem round_list (m : Nat) (hm : 0 < m) (xs : List Int) (dur step a b : Int) :
@@ -347,15 +312,6 @@ theorem round_list (m : Nat) (hm : 0 < m) (xs : List Int) (dur step a b : Int) :
       (∀ t, l = some t → Cand m xs t) ∧ (∀ t, r = some t → Cand m xs t) := by
   obtain ⟨l, hl, hlc⟩ := iter_cand m hm xs dur a (decide (0 < a)) (step + m) true
   obtain ⟨r, hr, hrc⟩ := iter_cand m hm xs dur b (decide (b + step < dur)) (step + m) false
-  refine ⟨l, r, ?_, hlc, hrc⟩
-  unfold Zero.round; rw [hl]; simp only; rw [hr]
-
-theorem round_list_on (k : Int) (m : Nat) (hm : 0 < m) (xs : List Int) (dur step a b : Int)
-    (hk : k ∣ (m : Int)) (hs : k ∣ step) (ha : k ∣ a) (hb : k ∣ b) :
-    ∃ l r, Zero.round (listReader m xs) m dur step a b = .ok (l, r) ∧
-      (∀ t, l = some t → CandOn k m xs t) ∧ (∀ t, r = some t → CandOn k m xs t) := by
-  obtain ⟨l, hl, hlc⟩ := iter_candOn k m hm xs dur a (decide (0 < a)) (step + m) true ha (Int.dvd_add hs hk)
-  obtain ⟨r, hr, hrc⟩ := iter_candOn k m hm xs dur b (decide (b + step < dur)) (step + m) false hb (Int.dvd_add hs hk)
   refine ⟨l, r, ?_, hlc, hrc⟩
   unfold Zero.round; rw [hl]; simp only; rw [hr]
 
@@ -553,37 +509,38 @@ theorem loop_terminates (rd : Reader) (m : Nat) (dur target step : Int) :
           rw [e] at h1 h2
           exact ih _ _ (by omega) (by omega)
 
-theorem searchBound_spec (dur target step : Int) (hs : 0 < step) :
-    ∃ f : Nat, searchBound dur target step = f + 1 ∧ target < (f : Int) * step ∧ dur - target < (f : Int) * step := by
+theorem searchBound_spec (dur step : Int) (hs : 0 < step) :
+    ∃ f : Nat, searchBound dur step = f + 1 ∧ max dur 0 < (f : Int) * step := by
   unfold searchBound
-  refine ⟨((max (max target (dur - target)) 0) / step).toNat + 1, rfl, ?_⟩
-  generalize hM : max (max target (dur - target)) 0 = M
+  refine ⟨((max dur 0) / step).toNat + 1, rfl, ?_⟩
+  generalize hM : max dur 0 = M
   have hM0 : 0 ≤ M := by omega
   have hq : 0 ≤ M / step := Int.ediv_nonneg hM0 (by omega)
   have hlt : M < step * (M / step) + step := Int.lt_mul_ediv_self_add hs
   have e : (((M / step).toNat + 1 : Nat) : Int) * step = step * (M / step) + step := by
     rw [Int.natCast_add, Int.toNat_of_nonneg hq, Int.add_mul, Int.mul_comm]; simp
   rw [e]
-  omega
+  exact hlt
 
 /-- **search_terminates**: for every reader, recording, target and step the loop leaves within
-`searchBound dur target step = max(target, dur - target, 0) / step + 2` rounds: the fuelled function
-with at least that much fuel never runs out of fuel and returns what `search` returns -/
+`searchBound dur step = max(duration, 0) / step + 2` rounds — a bound that does not depend on the
+target (the cursors start inside the recording): the fuelled function with at least that much fuel
+never runs out of fuel and returns what `search` returns -/
 theorem search_terminates (rd : Reader) (m : Nat) (hm : 0 < m) (dur target step : Int) (n : Nat)
-    (hn : searchBound dur target step ≤ n) :
+    (hn : searchBound dur step ≤ n) :
     findFuel rd m dur target step n = some (search rd m dur target step) := by
-  have key : ∀ n, searchBound dur target step ≤ n → ∃ v, findFuel rd m dur target step n = some v := by
+  have key : ∀ n, searchBound dur step ≤ n → ∃ v, findFuel rd m dur target step n = some v := by
     intro n hn
     unfold findFuel
     by_cases hs : step < 2 * (m : Int)
     · rw [if_pos hs]; exact ⟨_, rfl⟩
     · rw [if_neg hs]
-      obtain ⟨f, hf, h1, h2⟩ := searchBound_spec dur target step (by omega)
-      have hne := loop_terminates rd m dur target step f target target h1 h2
-      cases hl : loop rd m dur target step (f + 1) target target with
+      obtain ⟨f, hf, h1⟩ := searchBound_spec dur step (by omega)
+      have hne := loop_terminates rd m dur target step f (min target dur) (max target 0) (by omega) (by omega)
+      cases hl : loop rd m dur target step (f + 1) (min target dur) (max target 0) with
       | none => exact absurd hl hne
       | some v =>
-        have := loop_mono rd m dur target step v (f + 1) target target hl (n - (f + 1))
+        have := loop_mono rd m dur target step v (f + 1) _ _ hl (n - (f + 1))
         have e : f + 1 + (n - (f + 1)) = n := by omega
         rw [e] at this
         exact ⟨v, this⟩
@@ -596,19 +553,19 @@ theorem search_terminates (rd : Reader) (m : Nat) (hm : 0 < m) (dur target step 
   by_cases hs : step < 2 * (m : Int)
   · rw [if_pos hs] at hv hv0; rw [← hv, ← hv0]
   · rw [if_neg hs] at hv hv0
-    have := loop_mono rd m dur target step v0 _ target target hv0 (n - searchBound dur target step)
-    have e : searchBound dur target step + (n - searchBound dur target step) = n := by omega
+    have := loop_mono rd m dur target step v0 _ _ _ hv0 (n - searchBound dur step)
+    have e : searchBound dur step + (n - searchBound dur step) = n := by omega
     rw [e, hv] at this
     exact this
 
 /-- the search as a fact about the loop: it is the loop's value for every sufficient fuel -/
 theorem search_eq_loop (rd : Reader) (m : Nat) (hm : 0 < m) (dur target step : Int) (hs : 2 * (m : Int) ≤ step) :
-    loop rd m dur target step (searchBound dur target step) target target = some (search rd m dur target step) := by
+    loop rd m dur target step (searchBound dur step) (min target dur) (max target 0) =
+      some (search rd m dur target step) := by
   have := search_terminates rd m hm dur target step _ (Nat.le_refl _)
   unfold findFuel at this
   rw [if_neg (by omega)] at this
   exact this
-
 
 /-! ## 9. the search on a recording (plain sample list): what it returns -/
 
@@ -621,13 +578,14 @@ theorem searchList_small_step (m : Nat) (xs : List Int) (target step : Int) (h :
   rw [if_pos h]
 
 theorem searchList_loop (m : Nat) (hm : 0 < m) (xs : List Int) (target step : Int) (hs : 2 * (m : Int) ≤ step) :
-    loop (listReader m xs) m (durOf m xs) target step (searchBound (durOf m xs) target step) target target =
-      some (searchList m xs target step) :=
+    loop (listReader m xs) m (durOf m xs) target step (searchBound (durOf m xs) step)
+      (min target (durOf m xs)) (max target 0) = some (searchList m xs target step) :=
   search_eq_loop (listReader m xs) m hm (durOf m xs) target step hs
 
 /-- a value returned by the search is the choice between the two candidates of one round -/
 theorem searchList_ok (m : Nat) (hm : 0 < m) (xs : List Int) (target step t : Int)
-    (Inv : Int → Int → Prop) (h0 : Inv target target) (hstep : ∀ a b, Inv a b → Inv (a - step) (b + step))
+    (Inv : Int → Int → Prop) (h0 : Inv (min target (durOf m xs)) (max target 0))
+    (hstep : ∀ a b, Inv a b → Inv (a - step) (b + step))
     (h : searchList m xs target step = .ok t) :
     2 * (m : Int) ≤ step ∧
     ∃ a b l r, Inv a b ∧ Zero.round (listReader m xs) m (durOf m xs) step a b = .ok (l, r) ∧
@@ -638,7 +596,7 @@ theorem searchList_ok (m : Nat) (hm : 0 < m) (xs : List Int) (target step t : In
     refine ⟨hs', ?_⟩
     have hl := searchList_loop m hm xs target step hs'
     rw [h] at hl
-    exact loop_ok_inv _ m _ target step Inv hstep t _ target target h0 hl
+    exact loop_ok_inv _ m _ target step Inv hstep t _ _ _ h0 hl
 
 /-- **closest**: the value returned is the closer of the two candidates found in the first round that
 finds anything (a tie goes to the left one) -/
@@ -653,8 +611,7 @@ theorem search_closest (m : Nat) (hm : 0 < m) (xs : List Int) (target step t : I
     searchList_ok m hm xs target step t (fun _ _ => True) trivial (fun _ _ _ => trivial) h
   exact ⟨a, b, l, r, hr, chooseClosest_spec target l r t hc⟩
 
-/-- the value returned is `start + z` samples for a window start `start ≥ 0`, and sample
-`round(start·rate) + z` of the recording is a genuine crossing -/
+/-- the value returned is the time of a sample of the recording that is a genuine crossing -/
 theorem search_cand (m : Nat) (hm : 0 < m) (xs : List Int) (target step t : Int)
     (h : searchList m xs target step = .ok t) : Cand m xs t := by
   obtain ⟨_, a, b, l, r, _, hr, _, hc⟩ :=
@@ -669,18 +626,13 @@ theorem search_cand (m : Nat) (hm : 0 < m) (xs : List Int) (target step t : Int)
 
 theorem cand_range (m : Nat) (hm : 0 < m) (xs : List Int) (t : Int) (h : Cand m xs t) :
     0 ≤ t ∧ t < durOf m xs := by
-  obtain ⟨s, z, hs, ht, hg⟩ := h
-  have hq0 := C16.roundHalfEven_nonneg s m hm hs
-  have hspec := C16.roundHalfEven_spec s m hm
-  unfold C16.IsRoundHalfEven at hspec
-  generalize roundHalfEven s m = q at *
-  have hlt : q.toNat + z < xs.length := hg.1
-  have hzm : 0 ≤ (z : Int) * (m : Int) := Int.mul_nonneg (by omega) (by omega)
-  refine ⟨by omega, ?_⟩
-  have hle : (q + z + 1) * (m : Int) ≤ (xs.length : Int) * (m : Int) :=
+  obtain ⟨k, ht, hg⟩ := h
+  have hlt : k < xs.length := hg.1
+  have hkm : 0 ≤ (k : Int) * (m : Int) := Int.mul_nonneg (by omega) (by omega)
+  have hle : ((k : Int) + 1) * (m : Int) ≤ (xs.length : Int) * (m : Int) :=
     Int.mul_le_mul_of_nonneg_right (by omega) (by omega)
-  rw [Int.add_mul, Int.add_mul, Int.one_mul] at hle
-  show t < (xs.length : Int) * (m : Int)
+  rw [Int.add_mul, Int.one_mul] at hle
+  show 0 ≤ t ∧ t < (xs.length : Int) * (m : Int)
   omega
 
 /-- **result_in_range**: whatever the target and the step, a value returned lies in `[0, duration]`
@@ -690,57 +642,24 @@ theorem result_in_range (m : Nat) (hm : 0 < m) (xs : List Int) (target step t : 
   have := cand_range m hm xs t (search_cand m hm xs target step t h)
   omega
 
-/-- the crossing behind a returned value, for arbitrary targets and steps -/
-theorem result_genuine_general (m : Nat) (hm : 0 < m) (xs : List Int) (target step t : Int)
-    (h : searchList m xs target step = .ok t) :
-    ∃ s : Int, ∃ z : Nat, 0 ≤ s ∧ t = s + (z : Int) * (m : Int) ∧ Genuine xs ((roundHalfEven s m).toNat + z) :=
-  search_cand m hm xs target step t h
-
-/-- **result_on_grid** (partial: the property asks it for every step of at least two samples; that is
-false for steps that are not a whole number of samples, see `result_on_grid_counterexample`) + genuine
-crossing: when the target is a sample position and the step a whole
-number of samples, the value returned is a sample position `k·m`, and sample `k` of the recording
-is zero or differs in sign from a neighbour -/
-theorem result_on_grid_partial (m : Nat) (hm : 0 < m) (xs : List Int) (target step t : Int)
-    (htarget : (m : Int) ∣ target) (hwhole : (m : Int) ∣ step)
+/-- **result_on_grid** + genuine crossing, in full (repaired code): for EVERY target (on or off the
+sample grid, inside or outside the recording) and EVERY step (whole or fractional number of
+samples) a value returned is a sample position `k·m`, and sample `k` of the recording is zero or
+differs in sign from a neighbour -/
+theorem result_on_grid (m : Nat) (hm : 0 < m) (xs : List Int) (target step t : Int)
     (h : searchList m xs target step = .ok t) :
     (m : Int) ∣ t ∧ Genuine xs (t / (m : Int)).toNat := by
-  obtain ⟨_, a, b, l, r, ⟨ha, hb⟩, hr, _, hc⟩ :=
-    searchList_ok m hm xs target step t (fun a b => (m : Int) ∣ a ∧ (m : Int) ∣ b) ⟨htarget, htarget⟩
-      (fun a b h => ⟨Int.dvd_sub h.1 hwhole, Int.dvd_add h.2 hwhole⟩) h
-  obtain ⟨l', r', hr', hl', hrr'⟩ := round_list_on (m : Int) m hm xs (durOf m xs) step a b (Int.dvd_refl _) hwhole ha hb
-  rw [hr] at hr'
-  simp only [Except.ok.injEq, Prod.mk.injEq] at hr'
-  obtain ⟨rfl, rfl⟩ := hr'
-  have hcand : CandOn (m : Int) m xs t := by
-    rcases (chooseClosest_spec target l r t hc).1 with h1 | h1
-    · exact hl' t h1
-    · exact hrr' t h1
-  obtain ⟨s, z, hs0, ⟨c, hc'⟩, ht, hg⟩ := hcand
-  have hmpos : (0 : Int) < m := by omega
-  have hsm : s = c * (m : Int) := by rw [hc', Int.mul_comm]
-  have hc0 : 0 ≤ c := by
-    by_cases hc0 : 0 ≤ c
-    · exact hc0
-    · exfalso
-      have : (c + 1) * (m : Int) ≤ 0 * (m : Int) := Int.mul_le_mul_of_nonneg_right (by omega) (by omega)
-      rw [Int.add_mul, Int.one_mul, Int.zero_mul] at this
-      omega
-  have hrhe : roundHalfEven s m = c := by rw [hsm]; exact C16.roundHalfEven_exact c m hm
-  have htm : t = (c + z) * (m : Int) := by rw [ht, hsm, Int.add_mul]
-  refine ⟨⟨c + z, by rw [htm, Int.mul_comm]⟩, ?_⟩
-  have hdiv : t / (m : Int) = c + z := by rw [htm]; exact Int.mul_ediv_cancel _ (by omega)
-  rw [hdiv]
-  rw [hrhe] at hg
-  have e : (c + (z : Int)).toNat = c.toNat + z := by omega
-  rw [e]; exact hg
+  obtain ⟨k, ht, hg⟩ := search_cand m hm xs target step t h
+  refine ⟨⟨k, by rw [ht, Int.mul_comm]⟩, ?_⟩
+  have hdiv : t / (m : Int) = k := by rw [ht]; exact Int.mul_ediv_cancel _ (by omega)
+  rw [hdiv, Int.toNat_natCast]; exact hg
 
-/-- **A6, proved counter-example**: with a step that is not a whole number of samples the result leaves
-the sample grid although the target is on it (`m = 2`: ticks are half samples; step 5 ticks = 2.5
-samples; target 0; result 7 ticks = sample position 3.5).  Replayed on the code: rate 8, samples
-`[5,3,2,1,-1,-4]`, `findNearestZeroCrossing(0.0, 0.3125) = 0.4375`. -/
-theorem result_on_grid_counterexample :
-    searchList 2 [5, 3, 2, 1, -1, -4] 0 5 = .ok 7 ∧ ¬ ((2 : Int) ∣ 7) := by decide
+/-- **A6, regression** (was a proved counter-example before commit 4789608): with a step of 2.5 samples
+(`m = 2`: ticks are half samples, step 5 ticks) and target 0 the result used to be 7 ticks = sample
+position 3.5; it is now 6 ticks = sample 3, a genuine crossing (`1 → -1`).  On the code: rate 8, samples
+`[5,3,2,1,-1,-4]`, `findNearestZeroCrossing(0.0, 0.3125) = 0.375`. -/
+theorem result_on_grid_regression :
+    searchList 2 [5, 3, 2, 1, -1, -4] 0 5 = .ok 6 ∧ (2 : Int) ∣ 6 ∧ Genuine [5, 3, 2, 1, -1, -4] 3 := by decide
 
 /-! ## 10. (e) errors_documented -/
 
@@ -756,7 +675,7 @@ theorem errors_documented (m : Nat) (hm : 0 < m) (xs : List Int) (target step : 
     refine Or.inr ⟨hs', ?_⟩
     have hl := searchList_loop m hm xs target step hs'
     rw [h] at hl
-    rcases loop_error _ m _ target step e _ target target hl with h1 | ⟨a, b, h1⟩
+    rcases loop_error _ m _ target step e _ _ _ hl with h1 | ⟨a, b, h1⟩
     · exact h1
     · obtain ⟨l, r, hr, _⟩ := round_list m hm xs (durOf m xs) step a b
       rw [hr] at h1; cases h1
@@ -817,45 +736,16 @@ theorem all_positive_error (m : Nat) (hm : 0 < m) (xs : List Int) (hpos : ∀ x 
     (hs : 2 * (m : Int) ≤ step) : searchList m xs target step = .error .FindZeroCrossingError :=
   no_crossing_error m hm xs (flat_of_pos xs hpos) target step hs
 
-/-! ## 11. (b, continued) A16: the number of rounds is not bounded by the recording -/
+/-! ## 11. (b, continued) A16, regression: far-away targets cost no more rounds than near ones -/
 
-theorem loop_none_flat (m : Nat) (xs : List Int) (hf : Flat xs) (dur target step : Int) (hs : 0 ≤ step) :
-    ∀ (fuel : Nat) (left right : Int), (fuel : Int) * step ≤ left + step →
-      loop (listReader m xs) m dur target step fuel left right = none := by
-  intro fuel
-  induction fuel with
-  | zero => intro left right _; rfl
-  | succ f ih =>
-    intro left right h
-    have e : ((f + 1 : Nat) : Int) * step = (f : Int) * step + step := by
-      rw [Int.natCast_add, Int.add_mul]; simp
-    rw [e] at h
-    have hf0 : 0 ≤ (f : Int) * step := Int.mul_nonneg (by omega) hs
-    unfold loop
-    rw [round_flat m xs hf]
-    simp only [Option.isSome_none, Bool.or_self, Bool.false_eq_true, if_false]
-    rw [if_neg (by omega)]
-    exact ih _ _ (by omega)
-
-/-- **search_rounds_unbounded (A16)**: the number of rounds the loop needs is not bounded in terms of
-the recording and the step: for every `N` the target `N·step` on a recording without a crossing keeps
-the loop running for more than `N` rounds (it then raises `FindZeroCrossingError`, by
-`no_crossing_error`).  The real loop needs the same `|target|/timeStep` rounds, and in binary64 it
-never leaves once `target - timeStep == target`. -/
-theorem search_rounds_unbounded (m : Nat) (xs : List Int) (hf : Flat xs) (step : Int)
-    (hs : 2 * (m : Int) ≤ step) (N : Nat) :
-    findFuel (listReader m xs) m (durOf m xs) ((N : Int) * step) step N = none := by
-  unfold findFuel
-  rw [if_neg (by omega)]
-  exact loop_none_flat m xs hf _ _ step (by omega) N _ _ (by omega)
-
-/-- for targets inside the recording the bound depends on duration and step only -/
-theorem searchBound_inside (dur target step : Int) (hs : 0 < step) (h0 : 0 ≤ target) (h1 : target ≤ dur) :
-    searchBound dur target step ≤ (dur / step).toNat + 2 := by
+/-- the round bound does not mention the target (before commit 0d5ac6f the loop needed
+`|target| / step` rounds: the former theorem `search_rounds_unbounded`) -/
+theorem searchBound_le (dur step : Int) (hs : 0 < step) (hd : 0 ≤ dur) :
+    (searchBound dur step : Int) = dur / step + 2 := by
   unfold searchBound
-  have : (max (max target (dur - target)) 0) / step ≤ dur / step :=
-    Int.ediv_le_ediv hs (by omega)
-  omega
+  have e : max dur 0 = dur := by omega
+  have hq : 0 ≤ dur / step := Int.ediv_nonneg hd (by omega)
+  rw [e, Int.natCast_add, Int.toNat_of_nonneg hq]; rfl
 
 /-! ## 12. (e, continued) an all-zero recording -/
 
@@ -914,8 +804,10 @@ theorem all_zero_target (m : Nat) (hm : 0 < m) (xs : List Int) (hz : ∀ x ∈ x
       .ok (l, some (k * (m : Int))) := by
     unfold Zero.round; rw [hl]; simp only; rw [hright]
   have hloop := searchList_loop m hm xs (k * (m : Int)) step hs
-  obtain ⟨f, hf, _, _⟩ := searchBound_spec (durOf m xs) (k * (m : Int)) step (by omega)
-  rw [hf] at hloop
+  obtain ⟨f, hf, _⟩ := searchBound_spec (durOf m xs) step (by omega)
+  have hmin : min (k * (m : Int)) (durOf m xs) = k * (m : Int) := by omega
+  have hmax : max (k * (m : Int)) 0 = k * (m : Int) := by omega
+  rw [hf, hmin, hmax] at hloop
   unfold loop at hloop
   rw [hround] at hloop
   simp only [Option.isSome_some, Bool.or_true, if_true, Option.some.injEq] at hloop
@@ -1014,13 +906,13 @@ theorem searchWav_eq (wv : Wav) (hwv : C16.Whole wv) (hk : knownWidth wv.width =
   rw [wavReader_eq wv hwv hk hr m hm, C16.nsamples_samples]
 
 /-- the headline statement at `Wav` level: terminates (by construction, `search_terminates`), and a
-returned value lies in `[0, duration]`; with target and step on the sample grid it is a sample
-position holding a genuine crossing; the only errors are the two documented ones -/
+returned value lies in `[0, duration]` and is a sample position holding a genuine crossing — for every
+target and every step; the only errors are the two documented ones -/
 theorem searchWav_spec (wv : Wav) (hwv : C16.Whole wv) (hk : knownWidth wv.width = true) (hr : 0 < wv.rate)
     (m : Nat) (hm : 0 < m) (target step : Int) :
     (∀ t, searchWav wv m target step = .ok t →
       0 ≤ t ∧ t ≤ (wv.nsamples : Int) * (m : Int) ∧
-      ((m : Int) ∣ target → (m : Int) ∣ step → (m : Int) ∣ t ∧ Genuine wv.samples (t / (m : Int)).toNat)) ∧
+      (m : Int) ∣ t ∧ Genuine wv.samples (t / (m : Int)).toNat) ∧
     (∀ e, searchWav wv m target step = .error e →
       (step < 2 * (m : Int) ∧ e = .ArgumentError) ∨ (2 * (m : Int) ≤ step ∧ e = .FindZeroCrossingError)) := by
   rw [searchWav_eq wv hwv hk hr m hm]
@@ -1029,7 +921,7 @@ theorem searchWav_spec (wv : Wav) (hwv : C16.Whole wv) (hk : knownWidth wv.width
   have hrange := result_in_range m hm _ target step t h
   unfold durOf at hrange
   rw [C16.nsamples_samples] at hrange
-  exact ⟨hrange.1, hrange.2, fun h1 h2 => result_on_grid_partial m hm _ target step t h1 h2 h⟩
+  exact ⟨hrange.1, hrange.2, result_on_grid m hm _ target step t h⟩
 
 
 /-! ## 14. (h) `audioSplice`: the textgrid and the audio stay in step -/
@@ -1591,7 +1483,7 @@ which `decide` gets stuck).  The values are the ones the real code returns (harn
 /-- rate 8, one tick per sample -/
 def exS : List Int := [5, 3, 2, 1, -1, -4, 2, 7, 7, 7, 7, 7, 7, -3, 4, 4, 4, 4, 4, 4]
 
--- hypotheses of `result_on_grid_partial` are satisfiable and the conclusion is observed
+-- `result_on_grid` observed
 example : searchList 1 exS 3 2 = .ok 3 ∧ Genuine exS 3 := by decide
 example : searchList 1 exS 10 2 = .ok 13 ∧ Genuine exS 13 := by decide
 example : searchList 1 exS 0 2 = .ok 3 := by decide
@@ -1610,18 +1502,18 @@ example : searchList 1 [1, 0, 1, 1, 1, 0, 1] 3 4 = .ok 1 := by decide
 -- a zero in the window is preferred to a nearer sign change (reverse scan of [5, 0, 5, -1, -1])
 example : nextIdx [5, 0, 5, -1, -1] true = some 1 ∧ nextIdx [5, 5, -1, -1] true = some 2 := by decide
 example : thresholdCrossing [3, -2] false = some 1 ∧ thresholdCrossing [3, -3] false = some 0 := by decide
--- the explicit round bound
-example : searchBound 20 3 2 = 10 ∧ searchBound 20 1000 2 = 502 := by decide
--- A16 at model level: N rounds are not enough for the target N·step
-example : findFuel (listReader 1 [3, 3]) 1 2 (50 * 2) 2 50 = none :=
-  search_rounds_unbounded 1 [3, 3] (flat_of_pos _ (by decide)) 2 (by decide) 50
+-- the explicit round bound: 20 samples, step 2 → 12 rounds, whatever the target
+example : searchBound 20 2 = 12 := by decide
+-- A16 regression: targets 10^17 samples away are answered within that bound (was: more than N rounds for target N·step)
+example : searchList 1 exS (10 ^ 17) 2 = .ok 13 ∧ searchList 1 exS (-(10 ^ 17)) 2 = .ok 3 := by decide
+example : searchList 1 [3, 3] (10 ^ 17) 2 = .error .FindZeroCrossingError := by decide
 -- byte level (width 2, rate 8): the same search through `Wav.getSamples`
 example : searchWav ⟨2, 8, pack 2 [5, 3, 2, 1, -1, -4, 2, 7]⟩ 1 3 2 = .ok 3 := by decide
 example : C16.Whole ⟨2, 8, pack 2 [5, 3, 2, 1, -1, -4, 2, 7]⟩ := by decide
 
-#guard searchList 2 exS 0 5 == .ok 7                      -- A6: sample position 3.5
-#guard searchList 4 exS (9 * 4) 9 == .ok 22               -- rate 8, target 1.125 s, step 2.25 samples: 5.5 samples
-#guard searchList 1 exS 2000 2 == .ok 13                  -- far target: 995 rounds
+#guard searchList 2 exS 0 5 == .ok 6                      -- A6 regression: was 7 (sample position 3.5), now sample 3
+#guard searchList 4 exS (9 * 4) 9 == .ok 24               -- rate 8, target 1.125 s, step 2.25 samples: was 5.5 samples, now 6
+#guard searchList 1 exS 2000 2 == .ok 13                  -- far target (A16 regression): at most 12 rounds
 #guard getInterval 3 4 10 true == (0, 3) && getInterval 8 4 10 false == (8, 10) && getInterval (-6) 4 10 false == (0, -2)
 
 /-- the tier of C07/C08's examples: `[10,30] a, [30,60] b, [80,90] c` in `[0, 100]` -/
